@@ -285,9 +285,10 @@ static void do_footprint_mark(const Op& op) {
 
 static void do_giveback_check(const Op& op) {
   // op.a bit0: do not collect; bit1: skip the arena-commit rule (reset mode / purging off); bit2: skip monotonicity
+  // (the other threads must be gone before the collect: one that ends in between leaves its metadata in the cache the collect just emptied)
+  for (size_t k = 0; k < H.threads.size(); k++) if ((int)k != T->prog && H.threads[k].started && !H.threads[k].done) { H.ops_noop++; return; }
   if (!(op.a & 1)) collect_all_heaps(true);
   if (!H.live.empty()) { H.ops_noop++; return; }
-  for (size_t k = 0; k < H.threads.size(); k++) if ((int)k != T->prog && H.threads[k].started && !H.threads[k].done) { H.ops_noop++; return; }
   for (auto sp : H.subprocs) if (sp) { H.ops_noop++; return; }   // memory abandoned in another sub-process can only be released by a thread of that sub-process
   if (T->prog != 0) { H.ops_noop++; return; }                     // only the main thread's forced collect releases the thread-metadata cache
   std::vector<ArenaArea> as = all_arena_areas();
